@@ -2,6 +2,7 @@
 
 pub mod be;
 pub mod big;
+pub mod c08;
 pub mod c09;
 pub mod util;
 
@@ -10,6 +11,14 @@ use pvc_engine::{Run, load_replay, parse_args};
 fn main() {
     let args = parse_args();
     let code = match args.property.as_str() {
+        "C08" => {
+            let mut run = Run::new(&args, "exploration");
+            match &args.replay {
+                Some(p) => c08::replay(&mut run, &load_replay(p)),
+                None => c08::run(&mut run),
+            }
+            run.finish()
+        }
         "C09" => {
             let mut run = Run::new(&args, "exploration");
             match &args.replay {
